@@ -158,7 +158,13 @@ func rewritePackage(repo, gen string, ps pkgSpec, overlay map[string]string) []f
 		die("type check of %s failed: %v", ps.Dir, err)
 	}
 	var reports []fileReport
-	for _, name := range ps.Files {
+	names := ps.Files
+	if len(names) == 1 && names[0] == "*" {
+		// every non-test file of the package (an edit may move code into another file)
+		names = append([]string(nil), bp.GoFiles...)
+		sort.Strings(names)
+	}
+	for _, name := range names {
 		f := byName[name]
 		if f == nil {
 			die("%s/%s is not part of the package for this toolchain (build constraints?)", ps.Dir, name)
